@@ -112,13 +112,14 @@ prop("C01",
 prop("C10",
      trusted_base=["hand model Model/Rpc.lean of both protocol endpoints (host Execve/waitForDone/simple calls; container serve/handleExecve/handleExecveStarted) with FIFO channels; the capacity-1 Go channels are folded into the queues",
                    "hand model Model/Reaper.lean of the hand-off between the container's command server and its reaper goroutine (waitPid / waitPidResult / waitAll / waitAllDone with their capacities; wait4(pid) and wait4(-1) of init; any number of processes left behind, abstracted to 'some alive / some zombies'); tied to the regenerated handleExecveStarted paths, waitLoop paths and channel capacities (Gen.C12) by C10_gen_reaper_server / C10_gen_reaper_loop",
+                   "the host endpoint of the model tied to the regenerated paths of Execve / execveSyncKill / waitForDone and of the six simple calls (Gen.C10: C10_gen_host_paths, C10_gen_simple_calls)",
                    "tie: message-kind logs recorded at BOTH endpoints by the verif hooks (container/trace_verif.go) must be a run of the model for every operation of random histories (trace inclusion computed by the driver), plus API result class and a Ping after every step"],
      assumptions=["Go channel/goroutine scheduling beyond the modelled queues; gob framing is C19",
                   "requests fit the transport: a request whose gob encoding exceeds 32 KiB or an Open batch with more than 253 successes (SCM_MAX_FD) loses the environment; recorded as open known findings under C10/C14 (hypothesis 'request fits')"],
      not_covered="real-time promptness after transport loss is observed, not proved",
      level_text="Kernel-evaluated exhaustive exploration of the protocol LTS for every operation kind x outcome class x sync mode under all interleavings of exit/cancel/kill/reply, lifted by induction to every finite history: after every call host and container are in sync with empty channels, every call gets exactly its own answer, a Ping afterwards always succeeds, transport loss never blocks the host; witness theorem for the pinned tree's desynchronisation; the server/reaper hand-off inside the container explored under every interleaving (closed state set) and lifted to any number of Execves: every call is answered with the wait status of its own program, the hand-over never finds the reaper busy, every call ends with the hand-off balanced (witnesses: without the final wait for the reaping a program's status is stolen; with a kill branch that returns early the third Execve blocks for ever); trace inclusion of real two-endpoint logs into the model; the result class of every real Execve is the class its own parameters determine; after real loss of the transport (Destroy, init killed) every one of 3-8 further calls fails within 10 s; every Execve of a history answers within its watchdog (incl. a refused after-exec synchronisation of a long-running program)",
      level_note="Trusted: Lean kernel; the protocol model is hand written and tied to the code by trace inclusion on sampled histories (not a proof of refinement)",
-     technique="Lean 4 exhaustive LTS exploration (decide +kernel, closed state sets) + induction over histories + regenerated path facts + trace-inclusion correspondence")
+     technique="Lean 4 exhaustive LTS exploration (decide +kernel, closed state sets) + induction over histories + regenerated path facts of both endpoints + trace-inclusion correspondence")
 
 prop("C11",
      trusted_base=["hand LTS Model/Cancel.lean of the ptrace launch/cancel race (child: clone, setsid, self-stop, run, exit; canceller goroutine; trace loop) with kill(-pgid) answering ESRCH while no process group exists",
